@@ -14,7 +14,8 @@ RULE = ("seeded DNA strands: linear with 5'/3' terminal names (n = 2..400, read 
         "of residue n+1-k with 5' and 3' exchanged, second strand connected in that order and separate from the first, "
         "edge labels copied, circular -> circular; complementing the added strand again must give the original names; "
         "unknown residue names must be rejected; an end-to-end stratum runs gen_params -dsdna on a synthetic DNA force "
-        "field. non-trivial = strand with >= 2 nucleotides; distinct = hash(sequence, circular, format)")
+        "field. non-trivial = strand with >= 2 nucleotides; distinct = hash(sequence, circular, format)"
+        ' Later: .json strands with spaced / permuted node keys, shifted residue ids and shuffled listing; sequences wrapped over lines; .txt strands; headers naming DNA and PROTEIN.')
 ASSUMPTIONS = ["a lone nucleotide read from a file is named with both suffixes by the parsers and is rejected by the "
                "pairing table; the n = 1 law is driven on a hand-built one-residue strand"]
 CASE_TIMEOUT = 120
